@@ -376,6 +376,7 @@ def r12_8(ctx):
         keys = {d: sorted(h.fields[d].keys()) for d in ("read_ops", "exec_ops", "write_ops") if isinstance(h.fields.get(d), dict) and h.fields[d]}
         return outs, keys
 
+    named_operands_resolve_to_their_node(ctx)
     for member, dicts in (("GLOBAL", ["read_ops"]), ("LOCAL", ["read_ops"]), ("LET", ["read_ops"]), ("EXEC", ["exec_ops"])):
         ctx.need(member in pt, f"PureType.{member} missing")
         outs, keys = run("add_pure", lambda: AObj("Pure", {"type": EnumV("PureType", member, pt[member])}, label="p", opaque=True))
@@ -396,6 +397,31 @@ def r12_8(ctx):
             got = [o.value if o.kind != "raise" else "RAISE" for o in outs]
             exp = [True] if method == "has_op" else ["node"]
             ctx.check(f"{method} finds an entry of {d} by its name", got == exp, str(exp), str(got), fn_where(idx, fi))
+
+
+def named_operands_resolve_to_their_node(ctx):
+    """a name in the text that denotes a parameter or an operand already in the holder yields THAT node (not a copy): the read counter that
+    decides between the raw use and DUP() lives in the node"""
+    from sa.cbmodel import Runner
+    from sa.absint import Tok
+
+    idx = get_index(ctx.env)
+    for where in ("parameter", "operand in the holder"):
+        r = Runner(idx)
+        box = {}
+
+        def over(where=where):
+            node = AObj("Parameter" if where == "parameter" else "Variable", {"name": "x", "reads": 0}, label="the node", opaque=True)
+            box["n"] = node
+            h = AObj("ILOpsHolder", {"read_ops": {} if where == "parameter" else {"x": node}, "exec_ops": {}, "write_ops": {}, "let_ops": {}, "hybrid_effect_dict": {}}, label="holder", opaque=True)
+            return {"parameters": {"x": node} if where == "parameter" else {}, "il_ops_holder": h}
+        fi, outs = r.run("identifier", lambda: [Tok("IDENTIFIER", "x")], self_over=over)
+        got = ["RAISE" if o.kind == "raise" else "the node" if o.value is box["n"] else f"another object ({lab_(o.value)})" for o in outs]
+        ctx.check(f"identifier naming a {where} yields the registered node itself", got == ["the node"], "the node (identity)", str(got), fn_where(idx, fi))
+
+
+def lab_(v):
+    return getattr(v, "label", None) or type(v).__name__
 
 
 @rule("R12.9", "C12", "every effect handed to a sequence is referenced by it (only Empty, which declares nothing, is dropped)", min_instances=20)
@@ -498,6 +524,9 @@ def r12_12(ctx):
     from .c06 import r06_7, ternary_guard_checks
 
     r06_7(ctx)  # the sequence chk_hybrid_dep hands back is the one that is stored / returned: a dropped wrapper is an initialised effect nobody references, and its members get two owners
+    from .c06 import arm_statement_effects_taken_once
+
+    arm_statement_effects_taken_once(ctx)  # an effect handed to an arm is no longer pending: nobody sequences it a second time
     ternary_guard_checks(ctx, pending=False)  # the statement of a ({...}) arm is referenced through its guard (else the statement's effect is initialised and its text rendered a second time)
 
 
@@ -530,3 +559,10 @@ def no_conversion_of_removed_operands(ctx):
         n += 1
         ctx.check(f"{q}: nothing is built from an operand the path removes", not bad, "removed operands are not converted / registered again", "; ".join(sorted(set(bad))[:2]) or "ok", fn_where(idx, fi))
     ctx.need(n == 4, "folders not found")
+
+
+@rule("R12.13", "C12", "an operand is taken out of the holder only when nothing else names it: a register removed while an earlier statement still holds it comes back as a second node for the same C variable, and both are consumed raw (who-may-remove; removal guarded by literal-ness or a use count)", min_instances=4)
+def r12_13(ctx):
+    from .c09 import r09_3
+
+    r09_3(ctx)
